@@ -121,6 +121,17 @@ def build_calls(d, dtype):
                           ("KApproval", ds.KApproval, {"k": d["k"]})]:
         for meth in ("score", "scf", "swf"):
             calls[f"deterministic_scoring.{name}.{meth}"] = (seeded(getattr(cls(tie_breaker="first", **kw), meth)), [scp(Pv)])
+    if d.get("bigk"):
+        # a large, nearly tied electorate (scores of the order 1e5, leader one point ahead): results must not depend on the rank dtype
+        kk, mb = d["bigk"], d["bigm"]
+        first = list(range(1, mb + 1))
+        second = [2, 1] + list(range(3, mb + 1))
+        Pb = np.array([first] * (kk + 1) + [second] * kk, dtype=dtype)
+        for name, cls, kw in [("Plurality", ds.Plurality, {}), ("Borda", ds.Borda, {}), ("Veto", ds.Veto, {}), ("KApproval", ds.KApproval, {"k": 1})]:
+            for tb in ("accept", "first"):
+                calls[f"deterministic_scoring.{name}.scf[large_near_tie,{tb}]"] = (getattr(cls(tie_breaker=tb, **kw), "scf"), [scp(Pb)])
+            calls[f"deterministic_scoring.{name}.score[large_near_tie]"] = (getattr(cls(tie_breaker="first", **kw), "score"), [scp(Pb)])
+        calls["deterministic_tournament.Copeland.scf[large_near_tie]"] = (dt.Copeland(tie_breaker="accept").scf, [scp(Pb)])
     for meth in ("score", "scf"):
         calls[f"deterministic_scoring.SocialWelfare.{meth}"] = (getattr(ds.SocialWelfare(tie_breaker="accept"), meth), [vp(valsv)])
     for meth in ("score", "scf", "swf"):
@@ -319,7 +330,8 @@ def gen_data(R):
             if inst["kind"] == kind:
                 pref[kind] = inst
                 break
-    return {"n": n, "P": P, "P2": P2, "Pv": Pv, "PvT": V.rand_profile(R.rng, len(Pv[0]), len(Pv)), "vals": vals, "valsv": valsv, "V1": S.vals_agreeing(R.rng, P, 0, 9), "V2": S.vals_agreeing(R.rng, P2, 0, 9),
+    big = {"bigk": R.rng.choice([50000, 100000, 100001]), "bigm": R.rng.choice([2, 2, 3])} if R.rng.random() < 0.15 else {}
+    return {**big, "n": n, "P": P, "P2": P2, "Pv": Pv, "PvT": V.rand_profile(R.rng, len(Pv[0]), len(Pv)), "vals": vals, "valsv": valsv, "V1": S.vals_agreeing(R.rng, P, 0, 9), "V2": S.vals_agreeing(R.rng, P2, 0, 9),
             "k": R.rng.randint(1, m), "lam": R.rng.randint(1, n), "lam2": R.rng.randint(1, n), "speeds": [R.rng.choice([1.0, 2.0, 0.5]) for _ in range(n)],
             "X": X, "net": G, "s": net["s"], "t": net["t"], "bip": {str(k): v for k, v in bg.items()}, "X_": b["X"], "Y_": b["Y"], "Pinc": Pinc,
             "Pties": Pties, "distinct": [R.rng.sample(range(100), n) for _ in range(n)],
